@@ -139,13 +139,13 @@ KC == {<<1, 1>>, <<2, 1>>, <<62, 1>>, <<63, 1>>, <<64, 1>>, <<65, 1>>, <<21, 3>>
 LongPolicies(s) ==
   CASE s = "long1" ->
          {Mk(d, x, <<LG(IdxRange(0, n - 1), a)>>) :
-            d \in {"allow", "kill_process"}, x \in {TRUE, FALSE}, n \in LongSizes, a \in {"errno", "allow"}}
+            d \in {"allow", "kill_process", "errno"}, x \in {TRUE, FALSE}, n \in LongSizes, a \in {"errno", "allow"}}
     [] s = "long2" ->
          LET G1(n) == LG(IdxRange(0, n - 1), "errno")
              G2(m) == LG(IdxRange(m, NSys - 1), "kill_process")
              G3 == LG(IdxRange(0, NSys - 1), "trap")
              E  == LG(<<>>, "log") IN
-         UNION {{Mk("allow", x, <<G1(n), G2(m)>>), Mk("allow", x, <<G2(m), G1(n)>>),
+         UNION {{Mk("allow", x, <<G1(n), G2(m)>>), Mk("errno", x, <<G2(m), G1(n)>>),
                  Mk("allow", x, <<G1(n), E, G2(m), G3>>)} :
                  x \in {TRUE, FALSE}, n \in {1, 128, 254, 255, 256}, m \in {0, 127, 253, 254, 255, 256}}
     [] s \in {"longconds", "klong"} ->
@@ -186,12 +186,19 @@ DeepPolicies ==
   {Mk("allow", TRUE, << [names |-> ns, conds |-> es \o <<Entry(1, <<DC(0, "Equal", 2)>>)>>, act |-> "errno"],
                         [names |-> <<0>>, conds |-> <<>>, act |-> "kill_process"] >>) : ns \in {<<>>}, es \in DeepEntries}
 
-Explicit(s) == s \in {"defects", "defects2", "long1", "long2", "longconds", "klong", "chain", "deep"}
+\* the kernel's limit (C07: every defect-free policy that fits 4096 instructions is accepted): 993 single-condition lists
+\* for one syscall (4 instructions each) in one group plus n names in a second group put the program size at 4090..4101
+LimitPolicies ==
+  {Mk("allow", x, << [names |-> <<>>, conds |-> [j \in 1..993 |-> Entry(NSys - 1, EqLists(993, 1)[j])], act |-> "errno"],
+                     LG(IdxRange(0, n - 1), "kill_process") >>) : x \in {TRUE}, n \in 90..101}
+
+Explicit(s) == s \in {"defects", "defects2", "long1", "long2", "longconds", "klong", "chain", "deep", "limit"}
 ExplicitPolicies(s) ==
   CASE s = "defects" -> BasePolicies(0) \cup Defective1(0)
     [] s = "defects2" -> BasePolicies(0) \cup Defective1(0) \cup Defective2(0)
     [] s \in {"long1", "long2", "longconds", "klong"} -> LongPolicies(s)
     [] s = "chain" -> ChainPolicies
+    [] s = "limit" -> LimitPolicies
     [] s = "deep" -> DeepPolicies
 
 ---------------------------------------------------------------------------
@@ -205,6 +212,8 @@ EventSeq(s) ==
          SetToSeq({Ev(ar, nr, a) : ar \in {"own", "other"},
                                    nr \in Sys \cup {NSys, X32Bit, X32Bit + 1}, a \in Args2})
     [] s \in {"long1", "long2", "longconds", "klong"} -> LongEvents(s)
+    [] s = "limit" ->
+         SetToSeq({Ev(ar, nr, [a \in 0..5 |-> v]) : ar \in {"own", "other"}, nr \in {0, 89, 90, 95, 101, NSys - 1, NSys, X32Bit + 1}, v \in {0, 2, 500, 994, 995}})
     [] s = "single" ->
          SetToSeq({Ev("own", 0, [a \in {0, 5} |-> IF a = 0 THEN v ELSE w]) : v \in Vals, w \in {0, B*B - 1}}
                   \cup {Ev("own", 0, [a \in {0, 5} |-> IF a = 5 THEN v ELSE w]) : v \in Vals, w \in {0, B*B - 1}})
